@@ -168,7 +168,9 @@ impl VmStateIterator {
             memory: self.chiplets.get_mem_state_at(ctx, self.clk),
         });
 
-        self.clk -= 1;
+        // when the first state has been reached there is nowhere to go back to; the next call
+        // returns None, and the iterator can still be advanced forward
+        self.clk = self.clk.saturating_sub(1);
 
         result
     }
